@@ -514,7 +514,12 @@ func (in *Interp) installStubs() {
 	in.stubs["math/rand/v2.Float64"] = func(in *Interp, fn *ssa.Function, args []Value) Value {
 		return BVu(64, math.Float64bits(0.25))
 	}
-	in.stubs["runtime.NumCPU"] = func(in *Interp, fn *ssa.Function, args []Value) Value { return BVi(64, 2) }
+	in.stubs["runtime.NumCPU"] = func(in *Interp, fn *ssa.Function, args []Value) Value {
+		if n, ok := in.cfg.Params["NUMCPU"]; ok {
+			return BVi(64, int64(n))
+		}
+		return BVi(64, 2)
+	}
 	in.stubs["runtime.Gosched"] = func(in *Interp, fn *ssa.Function, args []Value) Value { in.schedule(true); return nil }
 	in.stubs["time.Now"] = func(in *Interp, fn *ssa.Function, args []Value) Value { return zero(fn.Signature.Results().At(0).Type()) }
 	in.stubs["math.Float64bits"] = func(in *Interp, fn *ssa.Function, args []Value) Value { return args[0] }
